@@ -36,6 +36,7 @@ PARAMS = ["a", "b", "c", "d"]
 HOSTV = ["x", "y", "z"]
 HOSTVAL = {"x": 2, "y": 3, "z": 5}
 
+DEFECT_BINDERS = ["nested-return", "plain-import", "from-import"]
 MALFORMED = ["star-def", "kwonly-def", "kwstar-def", "recursive", "non-call", "return-not-last", "dead-after-used-return",
              "star-call", "kwstar-call"]
 SIG_ALIAS = "method:a later call site relies on a default after an earlier site of the same generator passed that parameter explicitly"
@@ -45,6 +46,9 @@ SIG_CAPTURE = "method:an argument mentions a name that is also a parameter or lo
 SIG_REASSIGN = "method:the body assigns a parameter (known bug 1 at the top of inline.py)"
 SIG_MPREC = "method:an argument is a sum and the parameter is read in a product or after a minus sign (known bug 2 at the top of inline.py)"
 SIG_IMPORT_CAPTURE = "a client module binds a name that the inlined code reads as a global of the defining module (the added import is shadowed or shadows)"
+SIG_NESTED_RETURN = "method:the body contains a nested function with a return statement"
+SIG_IMPORT_RENAMED = "method:the body imports a name without `as` and the guest names are renamed because of a conflict with the host scope"
+SIG_CLASSMETHOD_INSTANCE = "method:a classmethod is called through an instance"
 SIG_STAR_CALL = "method:a call site passes *args or **kwargs"
 SIG_RETURN_NOT_LAST = "method:the body has a return that is not its last statement and a call site does not use the value"
 SIG_VDEP = "variable:an operand of the inlined right-hand side is reassigned between the definition and a read"
@@ -57,7 +61,11 @@ def fname(obj):
 
 def obj_sites(obj, src):
     """call sites of the inlined function / method in a module (textual order)"""
-    return L.call_sites(src, fname(obj), DEFMOD, method=obj.get("method", False))
+    out = L.call_sites(src, fname(obj), DEFMOD, method=obj.get("method", False))
+    if obj.get("mkind") == "staticmethod":
+        for x in out:
+            x["args"] = x["args"][1:]        # Python passes no receiver to a staticmethod
+    return out
 
 
 # ============================================================================= method stream: generator
@@ -105,6 +113,44 @@ def fmt_call(func, pos, kws):
     parts = [L.show_sum(e) for e in pos] + ["%s=%s" % (n, L.show_sum(e)) for n, e in kws]
     return "%s(%s)" % (func, ", ".join(parts))
 
+
+DECOS = """def d1(fn):
+    fn.tag = getattr(fn, 'tag', 0) + 1
+    return fn
+
+
+def d2(fn):
+    fn.tag = getattr(fn, 'tag', 0) + 10
+    return fn
+
+
+def d3(fn):
+    fn.tag = getattr(fn, 'tag', 0) + 100
+    return fn
+"""
+
+CTX = """class Ctx:
+    def __enter__(self):
+        return 7
+
+    def __exit__(self, *exc):
+        return False
+"""
+
+# constructs of the inlined body that bind a name other than by assignment: (bound name, body lines using parameter P)
+BINDERS = {
+    "def": ("hh", ["def hh(v):", "    print(v + 1)", "hh(P)"]),
+    "class": ("CC", ["class CC:", "    w = 3", "print(CC.w + P)"]),
+    "import-as": ("mm", ["import math as mm", "print(mm.floor(P))"]),
+    "for": ("ii", ["for ii in (1, 2):", "    print(ii + P)"]),
+    "with": ("ww", ["with Ctx() as ww:", "    print(ww + P)"]),
+    "except": ("ee", ["try:", "    raise ValueError(P)", "except ValueError as ee:", "    print(ee.args)"]),
+    # known defect shapes (see findings): a nested def that returns; an import without `as`
+    "nested-return": ("hh", ["def hh(v):", "    return v + 1", "print(hh(P))"]),
+    "plain-import": ("math", ["import math", "print(math.floor(P))"]),
+    "from-import": ("floor", ["from math import floor", "print(floor(P))"]),
+}
+CLEAN_BINDERS = ["def", "class", "import-as", "for", "with", "except"]
 
 BOX = """class Box:
     def __init__(self, v):
@@ -165,7 +211,7 @@ def indent_block(stmts, pad="    "):
     return [pad + line for st in stmts for line in st.split("\n")]
 
 
-def gen_method(rng, force_sites=None, shape=None, rich=False):
+def gen_method(rng, force_sites=None, shape=None, rich=False, current_in_client=False):
     """shape: None (main stream: arguments are single products over host names that are not names of the
     function, parameters are not reassigned), or one of the known defect shapes
     "capture" (an argument mentions a parameter/local name of the function), "reassign" (the body assigns a
@@ -196,6 +242,15 @@ def gen_method(rng, force_sites=None, shape=None, rich=False):
         body.append("print(t)")
     if use_global:
         body.append("print(%s + K)" % rng.choice(names))
+    bound = []
+    if shape == "binders":
+        for kind in rng.sample(CLEAN_BINDERS, rng.choice([1, 1, 2])):
+            bound.append(BINDERS[kind][0])
+            body += [l.replace("P", rng.choice(names)) for l in BINDERS[kind][1]]
+    elif shape in ("nested-return", "plain-import", "from-import"):
+        bound.append(BINDERS[shape][0])
+        body += [l.replace("P", rng.choice(names)) for l in BINDERS[shape][1]]
+    ndeco = rng.choice([0, 0, 1, 2, 3]) if shape in (None, "binders") else 0
     if returns:
         ret = L.show_sum(gen_body_sum(rng, names + (["t"] if local else [])))
         body.append("return Box(%s)" % ret if rich else "return %s" % ret)
@@ -210,16 +265,19 @@ def gen_method(rng, force_sites=None, shape=None, rich=False):
         body += ["if False:", "    %s(%s)" % (FNAME, ", ".join(names))]
     nmod = rng.choice([1, 1, 2, 2, 3]) if shape != "import-capture" else rng.choice([2, 3])
     nsites = force_sites or rng.randint(1, 6)
+    if current_in_client:          # several call sites in a module that imports the function, one of them inlined
+        nmod, nsites = max(nmod, 2), max(nsites, 3)
     sites_of = [[] for _ in range(nmod)]
     for s in range(nsites):
-        sites_of[rng.randrange(nmod)].append(s)
+        sites_of[1 if (current_in_client and s < 2) else rng.randrange(nmod)].append(s)
     files = {}
     collide = rng.random() < 0.3
     for m in range(nmod):
         lines = []
         style = None
         if m == 0:
-            lines += ["K = 9"] + (BOX.split("\n") if rich else [])
+            lines += ["K = 9"] + (BOX.split("\n") if rich else []) + (CTX.split("\n") if "ww" in bound else [])
+            lines += DECOS.split("\n") if ndeco else []
         else:
             # a module without call sites rarely imports the function by name (see SIG_IMPORT_ONLY)
             style = rng.choice(["from", "import"]) if (sites_of[m] or rng.random() < 0.15) else "import"
@@ -231,10 +289,18 @@ def gen_method(rng, force_sites=None, shape=None, rich=False):
         if collide or shape == "capture":
             cvar = rng.choice(names + ["t"])
             lines += ["%s = %d" % (cvar, 600 + m)]
+        # host names equal to the names the body binds by def / class / import / for / with / except
+        # (a name the body binds by import is hoisted into client modules by moving_code_with_imports and is then
+        #  shadowed by a client binding: that is the recorded import-capture defect; collide only in the defining module)
+        hbound = [b for b in bound if m == 0 or b not in ("mm", "math", "floor")]
+        lines += ["%s = %d" % (b, 700 + m) for b in hbound]
         if m == 0:
             extra = {"star-def": ", *rr", "kwonly-def": ", *, kk=1", "kwstar-def": ", **kk"}.get(shape, "")
-            lines += ["", "", "def %s(%s%s):" % (FNAME, ", ".join(n if d is None else "%s=%s" % (n, d) for n, d in params), extra)]
+            lines += ["", ""] + ["@d%d" % j for j in rng.sample([1, 2, 3], ndeco)]
+            lines += ["def %s(%s%s):" % (FNAME, ", ".join(n if d is None else "%s=%s" % (n, d) for n, d in params), extra)]
             lines += ["    " + b for b in body] + ["", ""]
+            # the definition is followed by another one (what is left of a removed definition would land on it)
+            lines += ["def after_f():", "    print('after')", "", ""]
             if shape == "non-call":
                 lines += ["hh = %s" % FNAME]
         func = FNAME if (m == 0 or style == "from") else "%s.%s" % (DEFMOD, FNAME)
@@ -272,48 +338,166 @@ def gen_method(rng, force_sites=None, shape=None, rich=False):
                 lines += ["dd = {%s}" % ", ".join("'%s': %d" % (n, 7 + j) for j, (n, _) in enumerate(params))]
                 call = "%s(**dd)" % func
             stmts = site_statements(rng, s, call, returns, rich)
-            if rng.random() < 0.3:
-                lines += ["", "", "def g%d():" % s] + indent_block(stmts) + ["", "", "g%d()" % s]
+            if rng.random() < (0.5 if bound else 0.3):
+                # host function; its own locals named like the names bound in the body are used after the call
+                pre = ["%s = %d" % (b, 70 + s) for b in hbound]
+                post = ["print('hl', %s)" % ", ".join(hbound)] if hbound else []
+                lines += ["", "", "def g%d():" % s] + indent_block(pre + stmts + post) + ["", "", "g%d()" % s]
             else:
                 lines += stmts
         if cvar:
             lines += ["print('%s', %s)" % (cvar, cvar)]
+        if hbound:
+            lines += ["print('hm', %s)" % ", ".join(hbound)]
+        if m == 0:
+            lines += ["after_f()", "print('tag', getattr(after_f, 'tag', 0))"]
         files["mod%d.py" % m] = "\n".join(lines) + "\n"
     files["main.py"] = "".join("import mod%d\n" % m for m in range(nmod))
-    remove = rng.random() < 0.6
+    remove = rng.random() < (0.8 if ndeco else 0.6)
     obj = {"kind": "method", "files": files, "entry": "main.py", "remove": remove, "only_current": False,
            "at": ["mod0.py", files["mod0.py"].index("def %s(" % FNAME) + 4]}
-    if rng.random() < 0.2:
+    if rng.random() < 0.2 or current_in_client:
         # only the current occurrence; the definition may go only when it is the only one
         cands = [(fn, s) for fn in sorted(files) if fn != "main.py" for s in obj_sites(obj, files[fn])]
-        fn, s = rng.choice(cands)
+        # prefer a module in which other call sites stay behind (they keep needing the definition and its import)
+        crowded = [(fn, s) for fn, s in cands if sum(1 for f2, _ in cands if f2 == fn) >= 2
+                   and (fn != "mod0.py" or not current_in_client)]
+        fn, s = rng.choice(crowded if crowded and (current_in_client or rng.random() < 0.6) else cands)
         obj["only_current"] = True
         obj["at"] = [fn, s["name_offset"]]
         obj["remove"] = remove and len(cands) == 1
     return obj
 
 
+def gen_splice(rng):
+    """a one-module straight-line host with one call site, `f(args)` or `v = f(args)`: the whole module after
+    InlineMethod(remove=True) is compared with Splice.inline_host; host variables named like the function's
+    parameters / locals exercise the renaming and the frame condition of C04_call_preserves"""
+    k = rng.choice([1, 2, 2, 3])
+    names = PARAMS[:k]
+    ndef = min(rng.choice([0, 1, 1, 2]), k)
+    params = [(n, None) for n in names[:k - ndef]] + [(n, str(50 + j)) for j, n in enumerate(names[k - ndef:])]
+    local = rng.random() < 0.6
+    returns = rng.random() < 0.6
+    body = []
+    if local:
+        body.append("t = %s" % L.show_sum(gen_body_sum(rng, names)))
+    body.append("print(%s)" % ", ".join(["100"] + names + (["t"] if local else [])))
+    if rng.random() < 0.4:
+        body.append("print(%s)" % L.show_sum(gen_body_sum(rng, names + (["t"] if local else []))))
+    if returns:
+        body.append("return %s" % L.show_sum(gen_body_sum(rng, names + (["t"] if local else []))))
+    lines = ["%s = %d" % (v, HOSTVAL[v]) for v in HOSTV]
+    cvars = rng.sample(names + ["t"], rng.choice([0, 1, 1, 2]))
+    lines += ["%s = %d" % (c, 600 + j) for j, c in enumerate(cvars)]
+    lines += ["", "", "def %s(%s):" % (FNAME, ", ".join(n if d is None else "%s=%s" % (n, d) for n, d in params))]
+    lines += ["    " + b for b in body] + ["", ""]
+    if rng.random() < 0.5:
+        lines.append("print(%s)" % L.show_sum(gen_body_sum(rng, HOSTV)))
+    pos, kws = gen_site(rng, params, 0)
+    for c in cvars:
+        if c in names and rng.random() < 0.5:        # identity binding of a colliding host variable
+            j = names.index(c)
+            ident = [(False, [("v", c)])]
+            if j < len(pos):
+                pos[j] = ident
+            else:
+                kws = [(n, ident if n == c else e) for n, e in kws]
+    call = fmt_call(FNAME, pos, kws)
+    if returns and rng.random() < 0.7:
+        lines += ["v = %s" % call, "print(v)"]
+    else:
+        lines += [call]
+    lines.append("print(%s)" % ", ".join(HOSTV + cvars))
+    src = "\n".join(lines) + "\n"
+    return {"kind": "method", "splice": True, "files": {"mod0.py": src, "main.py": "import mod0\n"}, "entry": "main.py",
+            "remove": True, "only_current": False, "at": ["mod0.py", src.index("def %s(" % FNAME) + 4]}
+
+
+def splice_case(I, obj, res, entries):
+    """Gallina scase for a gen_splice object (None if something is outside the grammar)"""
+    src = obj["files"]["mod0.py"]
+    d = L.find_def(src, FNAME)
+    node = d["node"]
+    lines = src.split("\n")
+    host_text = "\n".join(lines[:node.lineno - 1] + lines[node.end_lineno:])
+    marked = re.sub(r"^v = %s\(.*\)$" % FNAME, "CALLSITE = 0", host_text, flags=re.M)
+    marked = re.sub(r"^%s\(.*\)$" % FNAME, "print(987654321)", marked, flags=re.M)
+    host = L.parse_program(marked)
+    if host is None or len(entries) != 1:
+        return None
+    e, hdr, site = entries[0]
+    ia = [i for i, st in enumerate(host) if st[0] == "assign" and st[1] == "CALLSITE"]
+    ib = [i for i, st in enumerate(host) if st == ("print", [[(False, [("n", 987654321)])]])]
+    if len(ia) + len(ib) != 1:
+        return None
+    k = (ia + ib)[0]
+    pre, post, kind = host[:k], host[k + 1:], ("(KAssign %s)" % g_N(I("v")) if ia else "KStmt")
+    body_lines = [l for l in e["body"].split("\n") if l.strip()]
+    ret = None
+    if body_lines and body_lines[-1].startswith("return "):
+        ret = L.parse_sum(body_lines[-1][len("return "):])
+        body_lines = body_lines[:-1]
+        if ret is None:
+            return None
+    body = L.parse_program("\n".join(body_lines))
+    exprs = {v: L.parse_sum(v) for _, v in hdr}
+    # an expression statement (what is left of `return e` at a statement-level call) has no effect: dropped, as
+    # in Splice.inline_site, provided it is an expression of the grammar
+    kept_lines = []
+    for line in res["files"]["mod0.py"].split("\n"):
+        if line.strip() and not re.match(r"print\(|[A-Za-z_][A-Za-z_0-9]*\s*=(?!=)", line):
+            if L.parse_sum(line) is not None:
+                continue
+        kept_lines.append(line)
+    result = L.parse_program("\n".join(kept_lines))
+    if body is None or any(x is None for x in exprs.values()):
+        return None
+    assigned = [st[1] for st in body if st[0] == "assign"]
+    m = PREFIX.search(res["files"]["mod0.py"])
+    pfx = m.group(0) if m else "__0__"
+    ptbl = [(n, pfx + n) for n in dict.fromkeys([h for h, _ in hdr] + assigned)]
+    gtbl = g_list(["(%s, %s)" % (g_N(I(v)), L.g_sum(I, x)) for v, x in exprs.items()])
+    return "(mkS %s %s %s %s %s %s %s %s %s %s)" % (
+        L.g_prog(I, pre), kind, L.g_prog(I, post), gtbl, L.g_pairs(I, hdr), L.g_prog(I, body),
+        g_opt(None if ret is None else L.g_sum(I, ret)), g_list([g_N(I(n)) for n in site["host"]]), L.g_pairs(I, ptbl),
+        g_opt(None if result is None else L.g_prog(I, result)))
+
+
 MNAME = "get"
 
 
-def gen_methodcall(rng):
+def gen_methodcall(rng, mkind=None):
     """a method `Store.get` inlined at call sites whose receivers are attribute chains of depth 1-3 (`s`, `app.store`,
     `app.hub.store`; one more level through `mod0.` in modules that import the module); every object on a chain
-    has its own `base`, so a receiver cut short reads another object's attribute"""
+    has its own `base`, so a receiver cut short reads another object's attribute.
+    mkind: "method" | "staticmethod" | "classmethod" (called through the class; "classmethod-instance": through an
+    instance, a recorded defect); 0-3 decorators on the definition, which is followed by another method."""
+    mkind = mkind or rng.choice(["method", "method", "method", "staticmethod", "classmethod"])
+    via_instance = mkind == "classmethod-instance"
+    if via_instance:
+        mkind = "classmethod"
     k = rng.choice([1, 2, 2, 3])
     names = PARAMS[:k]
     ndef = min(rng.choice([0, 1, 1, 2]), k)
     params = [(n, None) for n in names[:k - ndef]] + [(n, str(50 + j)) for j, n in enumerate(names[k - ndef:])]
     returns = rng.random() < 0.5
-    body = ["print(%s)" % ", ".join(["100", "self.base"] + names)]
+    first = {"method": "self", "classmethod": "cls", "staticmethod": None}[mkind]
+    base = {"method": "self.base", "classmethod": "cls.base", "staticmethod": "7"}[mkind]
+    body = ["print(%s)" % ", ".join(["100", base] + names)]
     if rng.random() < 0.5:
-        body.append("print(self.base + %s)" % L.show_sum(gen_body_sum(rng, names)))
+        body.append("print(%s + %s)" % (base, L.show_sum(gen_body_sum(rng, names))))
     if returns:
-        body.append("return self.base * 2 + %s" % names[0])
-    host_method = rng.random() < 0.3
-    sig = ", ".join(["self"] + [n if d is None else "%s=%s" % (n, d) for n, d in params])
-    lines = ["class Store:", "    def __init__(self, base):", "        self.base = base", "",
-             "    def %s(%s):" % (MNAME, sig)] + ["        " + b for b in body] + [""]
+        body.append("return %s * 2 + %s" % (base, names[0]))
+    host_method = rng.random() < 0.3 and mkind == "method"
+    sig = ", ".join(([first] if first else []) + [n if d is None else "%s=%s" % (n, d) for n, d in params])
+    decos = ["@d%d" % j for j in rng.sample([1, 2, 3], rng.choice([0, 0, 1, 2]))]
+    if mkind != "method":
+        decos.insert(rng.randint(0, len(decos)), "@" + mkind)
+    lines = DECOS.split("\n") + ["class Store:", "    base = 9", "", "    def __init__(self, base):", "        self.base = base", ""]
+    lines += ["    " + d for d in decos] + ["    def %s(%s):" % (MNAME, sig)] + ["        " + b for b in body] + [""]
+    # the definition is followed by another method
+    lines += ["    def other(self):", "        print('other', self.base)", ""]
     if host_method:
         pos, kws = gen_site(rng, params, 8)
         lines += ["    def twice(self):"] + indent_block(
@@ -331,13 +515,19 @@ def gen_methodcall(rng):
     for m in range(nmod):
         if m > 0:
             style = rng.choice(["from", "import"])
-            lines = ["from %s import s, app" % DEFMOD if style == "from" else "import %s" % DEFMOD]
+            lines = ["from %s import s, app, Store" % DEFMOD if style == "from" else "import %s" % DEFMOD]
             lines += ["%s = %d" % (v, HOSTVAL[v]) for v in HOSTV]
             prefix = "" if style == "from" else DEFMOD + "."
         else:
             prefix = ""
         for i in sites_of[m]:
-            recv = prefix + rng.choice(["s", "app.store", "app.store", "app.hub.store", "app.hub.store"])
+            if mkind == "classmethod" and not via_instance:
+                recvs = ["Store"]                       # a classmethod is called through the class
+            elif mkind == "staticmethod":
+                recvs = ["s", "app.store", "app.hub.store", "Store"]
+            else:
+                recvs = ["s", "app.store", "app.store", "app.hub.store", "app.hub.store"]
+            recv = prefix + rng.choice(recvs)
             pos, kws = gen_site(rng, params, i)
             call = layout_call(rng, "%s.%s" % (recv, MNAME), pos, kws, rng.random() < 0.3)
             stmts = site_statements(rng, i, call, returns, False)
@@ -347,10 +537,12 @@ def gen_methodcall(rng):
                 lines += stmts
         if m == 0 and host_method:
             lines += ["s.twice()", "app.hub.store.twice()"]
+        if m == 0:
+            lines += ["s.other()", "print('tag', getattr(Store.other, 'tag', 0), isinstance(Store.__dict__['other'], (staticmethod, classmethod)))"]
         files["mod%d.py" % m] = "\n".join(lines) + "\n"
     files["main.py"] = "".join("import mod%d\n" % m for m in range(nmod))
-    obj = {"kind": "method", "method": True, "fname": MNAME, "files": files, "entry": "main.py",
-           "remove": rng.random() < 0.5, "only_current": False,
+    obj = {"kind": "method", "method": True, "mkind": mkind, "fname": MNAME, "files": files, "entry": "main.py",
+           "remove": rng.random() < 0.65, "only_current": False,
            "at": ["mod0.py", files["mod0.py"].index("def %s(" % MNAME) + 4]}
     if rng.random() < 0.15:
         cands = [(fn, x) for fn in sorted(files) if fn != "main.py" for x in obj_sites(obj, files[fn])]
@@ -477,6 +669,15 @@ def oracle(obj, res, removed_name=None):
         for fn, src in res["files"].items():
             if removed_name in L.names_in(src):
                 return "%s still references the removed definition %s" % (fn, removed_name)
+    if removed_name and obj["kind"] == "method":
+        # decorator lines: those of the removed definition go with it, all others stay where they were
+        def decos(src, skip=None):
+            return sorted((n.name, len(n.decorator_list)) for n in ast.walk(ast.parse(src))
+                          if isinstance(n, (ast.FunctionDef, ast.ClassDef)) and n.name != skip and n.decorator_list)
+        dm = DEFMOD + ".py"
+        gone = removed_name if obj["remove"] else None
+        if decos(obj["files"][dm], gone) != decos(res["files"][dm], gone):
+            return "decorators of other definitions change: %r -> %r" % (decos(obj["files"][dm], gone), decos(res["files"][dm], gone))
     return None
 
 
@@ -538,13 +739,22 @@ def method_case(obj, res):
     I = L.Intern()
     for n, _ in d["params"]:
         I(n)
-    gdef = "(mkDef %s %s %s)" % (L.g_state(I, d["params"]), g_bool(d["star"]), g_bool(d["kwstar"]))
+    gparams = list(d["params"])
+    if obj.get("mkind") == "classmethod" and gparams:
+        # _get_definition_params: paramdict[first parameter] = name of the class.  The class name is presented to the
+        # model as the default of the first parameter (the state is a name -> value map; `bind` never uses it because
+        # the receiver is always passed)
+        gparams[0] = (gparams[0][0], "Store")
+    gdef = "(mkDef %s %s %s)" % (L.g_state(I, gparams), g_bool(d["star"]), g_bool(d["kwstar"]))
     info = {"nsites": 0, "params": d["params"]}
     if res["refused"] is not None:
         if res["refused"][1] == STAR_MSG:
             return "(mkM %s true [])" % gdef, None, info
         return None, None, info          # other refusals are outside this model
     per_mod = {fn: obj_sites(obj, src) for fn, src in files.items() if fn != obj["entry"]}
+    for fn, ss in per_mod.items():
+        for x in ss:
+            x["module"] = fn
     normal, others = expected_groups(obj, res["order"], per_mod)
     groups = []
     for key, sites in (("normal", normal), ("others", others)):
@@ -563,14 +773,21 @@ def method_case(obj, res):
                 g_list([g_N(I(a)) for a in s["args"]]), L.g_pairs(I, s["kws"]), g_bool(s["star"]),
                 L.g_pairs(I, hdr), L.g_state(I, e["after"]), g_opt(None if pb is None else L.g_pairs(I, pb))))
             info["nsites"] += 1
-            info.setdefault("entries", []).append((e, hdr))
+            info.setdefault("entries", []).append((e, hdr, s))
+            if "host_vars" in e:
+                s["host"] = L.host_scope_names(files[s["module"]], s["lineno"])
+                if s["host"] != e["host_vars"]:
+                    return None, "names of the scope of the call site %s: rope %r, CPython symtable %r" % (
+                        s["text"], sorted(set(e["host_vars"]) - set(s["host"] or [])), sorted(set(s["host"] or []) - set(e["host_vars"]))), info
             if e.get("read") and not (s["star"] or s["kwstar"]) and not e["read"]["constructor"]:
-                pos_src = s["args"][1:] if obj.get("method") else s["args"]
+                pos_src = s["args"][1:] if (obj.get("method") and obj.get("mkind") != "staticmethod") else s["args"]
                 info.setdefault("rcases", []).append("(mkR %s %s %s %s)" % (
                     g_text(s["head"]), g_bool(e["read"]["implicit"]), g_list([g_text(a) for a in pos_src]),
                     g_list([g_text(a) for a in e["read"]["args"]])))
         groups.append("(mkGroup %s %s)" % (L.g_state(I, init), g_list(gs)))
     info["dcases"] = definition_cases(I, info.get("entries", []))
+    if obj.get("splice"):
+        info["scase"] = splice_case(I, obj, res, info.get("entries", []))
     return "(mkM %s false %s)" % (gdef, g_list(groups)), None, info
 
 
@@ -589,9 +806,9 @@ def body_program(text):
 
 
 def definition_program(e):
-    """the text _calculate_definition produced for a site -> program, `__N__` prefixes stripped"""
+    """the text _calculate_definition produced for a site -> program (`__N__x` is an ordinary identifier)"""
     lines = []
-    for line in PREFIX.sub("", e["definition"]).split("\n"):
+    for line in e["definition"].split("\n"):
         if not line.strip():
             continue
         if re.match(r"print\(|[A-Za-z_][A-Za-z_0-9]*\s*=(?!=)", line):
@@ -599,29 +816,35 @@ def definition_program(e):
         else:
             lines.append("print(%s)" % line)          # what is left of `return e` at a statement-level call
     if e["returns"] and e["returned"] is not None:
-        lines.append("print(%s)" % PREFIX.sub("", e["returned"]))
+        lines.append("print(%s)" % e["returned"])
     return L.parse_program("\n".join(lines))
 
 
 def definition_cases(I, entries):
     """[(Gallina dcase, [entry...])] grouped by generator body; sites outside the grammar are skipped"""
     by_body = {}
-    for e, hdr in entries:
+    for e, hdr, site in entries:
         if "definition" in e:
-            by_body.setdefault(e["body"], []).append((e, hdr))
+            by_body.setdefault(e["body"], []).append((e, hdr, site))
     out = []
     for body_text, es in by_body.items():
         body = body_program(body_text)
         if body is None:
             continue
+        assigned = [st[1] for st in body if st[0] == "assign"]
         tbl, sites, kept = {}, [], []
-        for e, hdr in es:
+        for e, hdr, site in es:
             exprs = {v: L.parse_sum(v) for _, v in hdr}
             result = definition_program(e)
             if any(x is None for x in exprs.values()) or result is None:
                 continue
             tbl.update(exprs)
-            sites.append("(mkD %s (Some %s))" % (L.g_pairs(I, hdr), L.g_prog(I, result)))
+            # the spelling of the prefixed guest names: "__N__" + name, N read off the produced text (0 if none)
+            m = PREFIX.search(e["definition"] + (e["returned"] or ""))
+            pfx = m.group(0) if m else "__0__"
+            ptbl = [(n, pfx + n) for n in dict.fromkeys([h for h, _ in hdr] + assigned)]
+            sites.append("(mkD %s %s %s (Some %s))" % (
+                L.g_pairs(I, hdr), g_list([g_N(I(n)) for n in site["host"]]), L.g_pairs(I, ptbl), L.g_prog(I, result)))
             kept.append(e)
         if sites:
             gtbl = g_list(["(%s, %s)" % (g_N(I(v)), L.g_sum(I, x)) for v, x in tbl.items()])
@@ -631,7 +854,7 @@ def definition_cases(I, entries):
 
 def prefix_problem(e, hdr):
     """the names rope prefixed in the definition text must be names the guest module defines"""
-    guest = {n for n, _ in hdr} | {m.group(1) for m in re.finditer(r"^([A-Za-z_][A-Za-z_0-9]*)\s*=(?!=)", e["body"], re.M)}
+    guest = {n for n, _ in hdr} | set(L.bound_names(e["body"]) or [])
     text = e["definition"] + "\n" + (e["returned"] or "")
     pref = set(re.findall(r"(__\d+__)([A-Za-z_][A-Za-z_0-9]*)", text))
     if len({p for p, _ in pref}) > 1:
@@ -697,6 +920,36 @@ def guest_shapes(obj):
                 if any(not L.prec_ok(p, e, x) for st in body for x in L.stmt_sums(st)):
                     shapes.add("precedence")
     return shapes
+
+
+def body_node(obj):
+    d = L.find_def(obj["files"][DEFMOD + ".py"], fname(obj))
+    return d["node"] if d else None
+
+
+def nested_return_shape(obj):
+    """the body contains a nested function (def or lambda excluded) with a return statement"""
+    node = body_node(obj)
+    if node is None:
+        return False
+    return any(isinstance(n, ast.FunctionDef) and n is not node and any(isinstance(r, ast.Return) for r in ast.walk(n))
+               for n in ast.walk(node))
+
+
+def import_renamed_shape(obj):
+    """the body binds a name by an import without `as`"""
+    node = body_node(obj)
+    if node is None:
+        return False
+    return any(isinstance(n, (ast.Import, ast.ImportFrom)) and any(a.asname is None for a in n.names) for n in ast.walk(node))
+
+
+def classmethod_instance_shape(obj):
+    """a classmethod is called through something other than the class name"""
+    if obj.get("mkind") != "classmethod":
+        return False
+    return any(x["recv"].split(".")[-1] != "Store" for fn, src in obj["files"].items() if fn != obj["entry"]
+               for x in obj_sites(obj, src))
 
 
 def star_call_shape(obj):
@@ -857,7 +1110,12 @@ def import_capture_shape(obj):
         if fn in (obj["entry"], DEFMOD + ".py"):
             continue
         assigned = {t.id for n in ast.parse(src).body if isinstance(n, ast.Assign) for t in n.targets if isinstance(t, ast.Name)}
-        if assigned & free:
+        if obj["kind"] == "method":
+            touched = bool(obj_sites(obj, src)) and not (obj.get("only_current") and obj["at"][0] != fn)
+        else:
+            touched = any((isinstance(n, ast.Name) and n.id == obj["name"]) or (isinstance(n, ast.Attribute) and n.attr == obj["name"])
+                          for n in ast.walk(ast.parse(src)) if not isinstance(n, ast.alias))
+        if assigned & free and touched:
             return True
     return False
 
@@ -912,21 +1170,37 @@ def signature(obj):
     obs = obj.get("observed") or ""
     if obj.get("mismatch"):
         return None          # a known finding is accepted only when rope's result is what the model predicts
-    if kind in ("variable", "method") and "cannot import name" in obs and import_only_shape(obj):
+    if kind in ("variable", "method") and "cannot import name" in obs and "cannot import name '__" not in obs \
+            and import_only_shape(obj):
         return SIG_IMPORT_ONLY
-    if kind in ("variable", "method") and obs.startswith("output changes") and import_capture_shape(obj):
+    if kind in ("variable", "method") and (obs.startswith("output changes") or obs.startswith("exit status")) \
+            and "cannot import name" not in obs and import_capture_shape(obj):
         return SIG_IMPORT_CAPTURE
     if kind == "variable":
         return variable_signature(obj) if obs.startswith("output changes") else None
     if kind == "method":
         # (the shapes alias_shape / nochange_shape belong to defects fixed in /repo 45cf20a, 8da5e8e: they are not
         #  accepted as known any more; their replays are in corpus/C04)
+        if import_renamed_shape(obj) and ("ModuleNotFoundError: No module named '__" in obs or "cannot import name '__" in obs):
+            return SIG_IMPORT_RENAMED
+        if nested_return_shape(obj) and (obs.startswith("output changes") or obs.startswith("exit status")):
+            return SIG_NESTED_RETURN
+        if classmethod_instance_shape(obj) and obs.startswith("output changes"):
+            return SIG_CLASSMETHOD_INSTANCE
         if star_call_shape(obj) and (obs.startswith("crash: AssertionError") or "NameError" in obs or obs.startswith("output changes")):
             return SIG_STAR_CALL
         if return_not_last_shape(obj) and (obs.startswith("output changes") or "does not parse" in obs or "exit status" in obs):
             return SIG_RETURN_NOT_LAST
         if obs.startswith("output changes") or "NameError" in obs or "UnboundLocalError" in obs:
             shapes = guest_shapes(obj)
+            model = obj.get("model")
+            if model and model["sites"] and model["compared"] == model["sites"] and not model["outside_domain"]:
+                # every call site was compared with Rename.calculate_definition and lies inside the domain of
+                # C04_definition_preserves: the model predicts NO behaviour change, so this is not one of these
+                # (kept: "reassign" -- a reassigned parameter bound to a host variable of the same name has no header
+                #  line; inside a host FUNCTION the inlined assignment makes the name local (UnboundLocalError), a
+                #  scoping effect the flat environment of the model does not have)
+                shapes &= {"reassign"}
             for key, sig in (("capture", SIG_CAPTURE), ("reassign", SIG_REASSIGN), ("precedence", SIG_MPREC)):
                 if key in shapes and (key != "precedence" or obs.startswith("output changes")):
                     return sig
@@ -943,7 +1217,7 @@ def replay(ctx, obj):
 
 # ============================================================================= checking
 HEADER = ("From Coq Require Import List NArith ZArith Bool.\nImport ListNotations.\n"
-          "From RopeVerif.C04 Require Import Inline Expr Receiver Runner.\n")
+          "From RopeVerif.C04 Require Import Inline Expr Call Rename Splice Receiver Runner.\n")
 
 VARIANTS = {
     "aliased": "REGRESSION: self.definition_params is updated in place by every call site (model variant alias=true)",
@@ -955,8 +1229,10 @@ MCODES = {1: "header bindings differ from the model", 2: "generator state after 
 
 
 def report(ctx, obj, res, mismatch, ofail):
-    replay_obj = {k: obj[k] for k in ("kind", "files", "entry", "remove", "only_current", "at", "name", "order") if k in obj}
+    replay_obj = {k: obj[k] for k in ("kind", "files", "entry", "remove", "only_current", "at", "name", "order", "method", "mkind", "fname", "shape") if k in obj}
     replay_obj["result"] = res.get("files")
+    if res.get("model"):
+        replay_obj["model"] = res["model"]
     if res.get("refused"):
         replay_obj["refused"] = list(res["refused"])
     if ofail:
@@ -1021,6 +1297,21 @@ def check_methods(ctx, objs):
     dshard = 150
     dbodies = [HEADER + "Definition dcases : list dcase := %s.\nEval vm_compute in (dresults dcases).\n"
                % g_list(dterms[s:s + dshard]).replace("; (mkDC", ";\n (mkDC") for s in range(0, len(dterms), dshard)]
+    sterms, sowner = [], []
+    for i in idx_of:
+        if all_infos[i].get("scase"):
+            sterms.append(all_infos[i]["scase"])
+            sowner.append(i)
+        elif objs[i].get("splice"):
+            ctx.count("method:splice cases outside the modelled grammar (oracle only)")
+    scodes = {}
+    if sterms:
+        out = ctx.coq_file(HEADER + "Definition scases : list scase := %s.\nEval vm_compute in (sresults scases).\n"
+                           % g_list(sterms).replace("; (mkS", ";\n (mkS"))
+        for (k, c) in ctx.parse_pairs(out)[0]:
+            scodes[sowner[k]] = c
+    ctx.count("method:whole host modules compared with Splice.inline_host", len(sterms))
+    ctx.count("method:host modules in the domain of C04_call_preserves", sum(1 for c in scodes.values() if c // 10 == 3))
     rterms, rowner = [], []
     for i in idx_of:
         for t in all_infos[i].get("rcases", []):
@@ -1072,16 +1363,24 @@ def check_methods(ctx, objs):
             ctx.count("method:the two variants differ in a header")
         dc = dcodes.get(i, [])
         nsites = all_infos[i].get("nsites", 0)
-        ctx.count("method:definition texts compared with Call.inline_header", len(dc))
+        ctx.count("method:definition texts compared with Rename.calculate_definition", len(dc))
         ctx.count("method:definition texts outside the modelled grammar (oracle only)", nsites - len(dc))
-        ctx.count("method:sites inside side_call (domain of C04_call_params_subst)", sum(1 for c in dc if c // 10 == 3))
-        pp = [x for x in (prefix_problem(e, hdr) for e, hdr in all_infos[i].get("entries", []) if "definition" in e) if x]
+        ctx.count("method:sites in the domain of C04_definition_preserves", sum(1 for c in dc if (c // 10) % 2 == 1))
+        ctx.count("method:sites whose guest names are renamed (conflict with the host scope)", sum(1 for c in dc if c // 20 == 1))
+        ctx.count("method:renamed sites in the domain of C04_definition_preserves", sum(1 for c in dc if c // 10 == 3))
+        res["model"] = {"compared": len(dc), "sites": nsites, "outside_domain": sum(1 for c in dc if (c // 10) % 2 == 0)}
+        pp = [x for x in (prefix_problem(e, hdr) for e, hdr, _ in all_infos[i].get("entries", []) if "definition" in e) if x]
         if i in rbad:
             report(ctx, obj, res, "CallInfo.read: argument list (implicit receiver) differs from Receiver.read_args", res["oracle"])
+        elif scodes.get(i, 0) % 10:
+            report(ctx, obj, res, "module after the change differs from Splice.inline_host", res["oracle"])
+        elif scodes.get(i, 0) // 10 == 3 and res["oracle"]:
+            report(ctx, obj, res, "inside the domain of C04_call_preserves but the behaviour changes: the reference "
+                                  "semantics of Splice.v does not describe Python", res["oracle"])
         elif code:
             report(ctx, obj, res, MCODES.get(code, "code %d" % code) + regress, res["oracle"])
         elif any(c % 10 for c in dc):
-            report(ctx, obj, res, "definition text of a call site differs from Call.inline_header", res["oracle"])
+            report(ctx, obj, res, "definition text of a call site differs from Rename.calculate_definition", res["oracle"])
         elif pp:
             report(ctx, obj, res, "renaming on name conflict: " + pp[0], res["oracle"])
         elif res["oracle"]:
@@ -1211,10 +1510,15 @@ def run(ctx):
     nv = ctx.scale(250, 3000)
     np_ = ctx.scale(25, 300)
     mobjs = [fixed_alias_case()]
-    for shape in MALFORMED:          # one of each kind on every run
+    for shape in MALFORMED + DEFECT_BINDERS:          # one of each kind on every run
         o = gen_method(rng, shape=shape)
         o["shape"] = shape
         mobjs.append(o)
+    for _ in range(3):
+        mobjs.append(gen_method(rng, current_in_client=True))
+        mobjs[-1]["shape"] = "current-in-client"
+    mobjs.append(gen_methodcall(rng, mkind="classmethod-instance"))
+    mobjs[-1]["shape"] = "classmethod-instance"
     for _ in range(nm):
         k = rng.random()
         if k < 0.18:
@@ -1225,7 +1529,15 @@ def run(ctx):
             mobjs.append(gen_method(rng, rich=True))
             mobjs[-1]["shape"] = "rich-layout"
             continue
-        k = (k - 0.36) / 0.64
+        if k < 0.48:
+            mobjs.append(gen_method(rng, shape="binders"))
+            mobjs[-1]["shape"] = "binders"
+            continue
+        if k < 0.60:
+            mobjs.append(gen_splice(rng))
+            mobjs[-1]["shape"] = "splice"
+            continue
+        k = (k - 0.60) / 0.40
         shape = (None if k < 0.70 else "capture" if k < 0.75 else "reassign" if k < 0.79 else "precedence" if k < 0.85
                  else "import-capture" if k < 0.88 else
                  rng.choice(MALFORMED))
